@@ -80,21 +80,25 @@ pub fn predicate_pushdown_rules() -> Vec<Rewrite> { vec![
         "(join ?type (and ?cond1 ?cond2) ?left ?right)" =>
         "(join ?type ?cond2 (filter ?cond1 ?left) ?right)"
         if not_depend_on("?cond1", "?right")
+        if join_type_is("?type", &[Expr::Inner, Expr::RightOuter, Expr::Semi])
     ),
     rw!("pushdown-join-condition-left-1";
         "(join ?type ?cond1 ?left ?right)" =>
         "(join ?type true (filter ?cond1 ?left) ?right)"
         if not_depend_on("?cond1", "?right")
+        if join_type_is("?type", &[Expr::Inner, Expr::RightOuter, Expr::Semi])
     ),
     rw!("pushdown-join-condition-right";
         "(join ?type (and ?cond1 ?cond2) ?left ?right)" =>
         "(join ?type ?cond2 ?left (filter ?cond1 ?right))"
         if not_depend_on("?cond1", "?left")
+        if join_type_is("?type", &[Expr::Inner, Expr::LeftOuter, Expr::Semi, Expr::Anti])
     ),
     rw!("pushdown-join-condition-right-1";
         "(join ?type ?cond1 ?left ?right)" =>
         "(join ?type true ?left (filter ?cond1 ?right))"
         if not_depend_on("?cond1", "?left")
+        if join_type_is("?type", &[Expr::Inner, Expr::LeftOuter, Expr::Semi, Expr::Anti])
     ),
     rw!("pushdown-filter-apply-left";
         "(filter ?cond (apply ?type ?left ?right))" =>
@@ -472,6 +476,15 @@ fn has_vector_index(
         }
         false
     }
+}
+
+/// Returns true if the join type bound to `var` is one of `types`.
+///
+/// A condition of an outer (or anti) join may only be turned into a filter on the side whose
+/// unmatched rows are *not* preserved.
+fn join_type_is(ty: &str, types: &'static [Expr]) -> impl Fn(&mut EGraph, Id, &Subst) -> bool {
+    let ty = var(ty);
+    move |egraph, _, subst| egraph[subst[ty]].nodes.iter().any(|n| types.contains(n))
 }
 
 /// Returns true if the columns used in `expr` is disjoint from columns produced by `plan`.
